@@ -189,6 +189,9 @@ class VectorOp(Case):
             res.append(('rejected-with-ValueError', (O['raised'] == 'ValueError') == expect_raise))
             if expect_raise:
                 res.append(('rejected-assignment-leaves-state-untouched', unchanged))
+            elif n:
+                # NaN is allowed: the assignment stores it (and nothing else changes)
+                res.append(('nan-stored-when-allowed', conj(is_nan(a['values'][0]), same_list(a['values'][1:], b['values'][1:]))))
         elif op in ('set_attr', 'set_key') and n:
             lo, hi = b['mins'][0], b['maxs'][0]
             below, above = clipped(arg[0], lo, hi)
@@ -274,12 +277,16 @@ class TransformReadOnly(Case):
         P = sym_vector(tr.params, 'p')
         C = sym_vector(tr.constants, 'c')
         x = SR(z3.Real('x0'))
+        # a second parameter vector assigned after the first round of calls: the read-only calls that follow (jacobian first) must leave IT in place
+        P2 = sym_vector(tr.params, 'r')
         if self.cls == 'Softmax':
             assume(z3.And(x.e >= q(0.01), x.e <= q(0.4)))
         else:
             for c in domain(self.cls, P, C, x):
                 assume(c)
-        return dict(P=P, C=C, x=x)
+            for c in domain(self.cls, P2, C, x):
+                assume(c)
+        return dict(P=P, C=C, x=x, P2=P2)
 
     def run(self, I):
         from harness.C01 import make, set_params
@@ -308,7 +315,14 @@ class TransformReadOnly(Case):
             tr.params_sample(nsamples=3)
         finally:
             transform.sutils.lhs = old
-        return dict(before=before, after=snap())
+        after = snap()
+        out = dict(before=before, after=after)
+        if I.get('P2'):
+            set_params(tr, I['P2'], {})
+            before2 = snap()
+            tr.jacobian(x)          # the first call after the reassignment
+            out.update(before2=before2, after2=snap())
+        return out
 
     def spec(self, I, O, err):
         res = [('no-exception', err is None)]
@@ -318,6 +332,90 @@ class TransformReadOnly(Case):
         for k, label in (('pv', 'parameter-values'), ('pmin', 'parameter-mins'), ('pmax', 'parameter-maxs'), ('pdef', 'parameter-defaults'),
                          ('cv', 'constant-values'), ('cmin', 'constant-mins'), ('cmax', 'constant-maxs')):
             res.append(('%s-unchanged' % label, same_list(a[k], b[k])))
+        if 'after2' in O:
+            b, a = O['before2'], O['after2']
+            for k, label in (('pv', 'parameter-values'), ('cv', 'constant-values'), ('pmin', 'parameter-mins'), ('pmax', 'parameter-maxs')):
+                res.append(('%s-unchanged-after-reassignment' % label, same_list(a[k], b[k])))
+        return res
+
+
+class VectorCtor(Case):
+    """base case of the induction: the state a constructor call produces is valid (defaults and values inside the bounds, values = defaults,
+    no hit), whichever optional arguments are omitted, and clone / dictionary round trip accept it"""
+    prop = 'C12'
+
+    def __init__(self, nnames, with_defaults, with_mins, with_maxs):
+        self.nn, self.wd, self.wlo, self.whi = nnames, with_defaults, with_mins, with_maxs
+        self.name = 'vector:ctor:n%d:defaults=%d:mins=%d:maxs=%d' % (nnames, with_defaults, with_mins, with_maxs)
+        self.params = dict(nnames=nnames, defaults=with_defaults, mins=with_mins, maxs=with_maxs)
+        self.functions = ['hydrodiy.data.containers.Vector.__init__']
+
+    def modules(self):
+        return modules()
+
+    def inputs(self):
+        I = dict(mins=[], maxs=[], defaults=[])
+        for i in range(self.nn):
+            lo, hi, d = sv('min%d' % i), sv('max%d' % i), sv('def%d' % i)
+            assume(lo.e + 1 <= hi.e)
+            assume(z3.And(d.e >= lo.e, d.e <= hi.e))
+            I['mins'].append(lo); I['maxs'].append(hi); I['defaults'].append(d)
+        return I
+
+    def run(self, I):
+        from hydrodiy.data.containers import Vector
+        names = ['p%d' % i for i in range(self.nn)]
+        kw = {}
+        if self.wd:
+            kw['defaults'] = list(I['defaults'])
+        if self.wlo:
+            kw['mins'] = list(I['mins'])
+        if self.whi:
+            kw['maxs'] = list(I['maxs'])
+        out = dict(raised=None, clone=None, rt=None)
+        try:
+            v = Vector(names, **kw)
+        except ValueError:
+            out['raised'] = 'ctor'
+            return out
+        out['obs'] = observe(v)
+        try:
+            out['clone'] = observe(v.clone())
+            out['rt'] = observe(Vector.from_dict(v.to_dict()))
+        except ValueError:
+            out['raised'] = 'copy'
+        return out
+
+    def spec(self, I, O, err):
+        res = [('no-unexpected-exception', err is None)]
+        if err is not None:
+            return res
+        res.append(('constructor-accepts-consistent-arguments', O['raised'] != 'ctor'))
+        if O['raised'] == 'ctor':
+            return res
+        o = O['obs']
+        inb = True
+        for i in range(self.nn):
+            for x in (o['defaults'][i], o['values'][i]):
+                lo, hi = o['mins'][i], o['maxs'][i]
+                inb = conj(inb, (not is_nan(x)),
+                           x >= lo if not (isinstance(lo, float) and math.isinf(lo)) else True,
+                           x <= hi if not (isinstance(hi, float) and math.isinf(hi)) else True)
+        res.append(('constructed-defaults-and-values-within-bounds', inb))
+        res.append(('constructed-values=defaults', same_list(o['values'], o['defaults'])))
+        res.append(('constructed-without-hit', o['hitbounds'] == False))
+        if self.wd:
+            res.append(('given-defaults-kept', same_list(o['defaults'], I['defaults'])))
+        if self.wlo:
+            res.append(('given-mins-kept', same_list(o['mins'], I['mins'])))
+        if self.whi:
+            res.append(('given-maxs-kept', same_list(o['maxs'], I['maxs'])))
+        res.append(('clone-and-dict-roundtrip-accept-the-constructed-state', O['raised'] is None))
+        if O['raised'] is None:
+            for nm in ('clone', 'rt'):
+                c = O[nm]
+                res.append(('%s-reproduces-the-constructed-state' % nm, conj(same_list(c['values'], o['values']), same_list(c['mins'], o['mins']),
+                                                                             same_list(c['maxs'], o['maxs']), same_list(c['defaults'], o['defaults']))))
         return res
 
 
@@ -384,6 +482,10 @@ def cases(tier):
     out += [VectorOp('clone', 1, True, 1, 1, 1, nan_state=True), VectorOp('dict_roundtrip', 1, True, 1, 1, 1, nan_state=True),
             VectorOp('clone', 1, True, 1, 0, 0), VectorOp('dict_roundtrip', 1, True, 1, 0, 0), VectorOp('reset', 0, True, 0, 0, 0),
             VectorOp('clone', 0, True, 0, 0, 0), VectorOp('set_all', 2, True, 1, 0, 1), VectorOp('set_attr', 2, True, 1, 0, 0)]
+    for wd in (0, 1):
+        for wlo in (0, 1):
+            for whi in (0, 1):
+                out.append(VectorCtor(1 if tier == 'quick' else 2, wd, wlo, whi))
     for n in ['Identity', 'Logit', 'Log', 'BoxCox2', 'BoxCox1lam', 'BoxCox1nu', 'BoxCox2sym', 'YeoJohnson', 'LogSinh', 'Reciprocal', 'Softmax',
               'Sinh', 'Manly']:
         out.append(TransformReadOnly(n))
